@@ -355,14 +355,49 @@ pub fn c07_summary<const STEP: usize, const KIND: u8, const PART: u8>(inp: &Inp)
     Verdict::Held
 }
 
+/// 4th step WITHOUT assuming a capture, all boards: lowest-bit projection for the generators and
+/// the abstract `move_piece` for the filter. Under the projection the relations are those of the
+/// projected lists: implied by the real relations when the engine is consistent (so no false
+/// alarm), and violated by any structural drift between `has_move` and `valid_actions` (a
+/// generator consulted under different conditions, a different guard) - the pull and push
+/// completion generators are not projected at all. The un-projected claim at step 3 is the
+/// hook-level `c07_has_non_passing` plus `c06_whole`.
+pub fn c07_summary3<const KIND: u8, const PART: u8>(inp: &Inp) -> Verdict {
+    let s = decode(inp, 3, KIND, 2);
+    vassume!(inv_rules(&s));
+    arm_abstract(s.prev[2].p1, s.prev[2].t[0], None);
+    #[cfg(not(kani))]
+    let s = {
+        let g0 = build_state(&s);
+        let nr0 = g0.valid_actions_no_rep();
+        concretize(&s, &nr0)
+    };
+    let gs = build_state(&s);
+    #[cfg(kani)]
+    let (w1, w2) = summaries::<PART>(&s, &gs, 14);
+    #[cfg(not(kani))]
+    let (w1, w2) = summaries::<PART>(&s, &gs, 300);
+    vcover_if!(PART != 2 || KIND != KIND_PUSH, w1, "C07 witness (step 3): nothing offered / pass withheld");
+    vcover_if!(PART != 2 || KIND != KIND_PUSH, w2, "C07 witness (step 3): something offered / pass offered");
+    std::mem::forget(gs);
+    Verdict::Held
+}
+
 /// Whole functions, un-projected, boards with <= KP pieces, real tables, symbolic history.
 pub fn c07_small<const STEP: usize, const KIND: u8, const KP: u32, const PART: u8>(inp: &Inp) -> Verdict {
     let s = decode(inp, STEP, KIND, 2);
     vassume!(inv_rules(&s));
     vassume!(s.board.all().count_ones() <= KP);
-    // the list relations do not depend on the table contents: run with the indicator table
-    #[cfg(kani)]
-    crate::stubs::set_target(s.probe, s.aux % 6, s.aux & 8 == 8);
+    // the list relations do not depend on what the hash function is: run with the abstract
+    // `move_piece` (two arbitrary values xor a board digest), natively with the real one after
+    // re-creating the solver's equality pattern (`concretize`)
+    arm_abstract(s.prev[2].p1, s.prev[2].t[0], None);
+    #[cfg(not(kani))]
+    let s = {
+        let g0 = build_state(&s);
+        let nr0 = g0.valid_actions_no_rep();
+        concretize(&s, &nr0)
+    };
     let gs = build_state(&s);
     #[cfg(kani)]
     let (w1, w2) = summaries::<PART>(&s, &gs, (4 * KP + 1) as usize);
@@ -380,9 +415,14 @@ pub fn c06_whole<const STEP: usize, const KIND: u8, const KP: u32>(inp: &Inp) ->
     let s = decode(inp, STEP, KIND, 2);
     vassume!(inv_rules(&s));
     vassume!(s.board.all().count_ones() <= KP);
-    // the list relation does not depend on the table contents: run with the indicator table
-    #[cfg(kani)]
-    crate::stubs::set_target(s.probe, s.aux % 6, s.aux & 8 == 8);
+    // the list relation does not depend on what the hash function is (see c07_small)
+    arm_abstract(s.prev[2].p1, s.prev[2].t[0], None);
+    #[cfg(not(kani))]
+    let s = {
+        let g0 = build_state(&s);
+        let nr0 = g0.valid_actions_no_rep();
+        concretize(&s, &nr0)
+    };
     let gs = build_state(&s);
     let va = gs.valid_actions();
     let nr = gs.valid_actions_no_rep();
